@@ -228,8 +228,14 @@ def _with_invariant(eng, stmt, st, it):
 
     clauses = spec.inv_fn if isinstance(spec.inv_fn, (list, tuple)) else [spec.inv_fn]
 
+    def getv(s, v):
+        if not v.startswith("ghost:"):
+            return eng.lookup(s, v)
+        g = s.ghost[v[6:]]
+        return VInt(g) if isinstance(g, z3.ExprRef) else g
+
     def inv_at(s, k):
-        args = [VInt(k)] + [eng.lookup(s, v) for v in spec.vars]
+        args = [VInt(k)] + [getv(s, v) for v in spec.vars]
         return [(getattr(f, "__name__", "inv"), eval_pred(eng, s, f, args)) for f in clauses]
 
     def oblige(s, k, phase):
